@@ -35,6 +35,7 @@ func (g *Gen) Sched(focus ...string) simrt.SchedCfg {
 		c.Overlap = true
 		c.StallProb = []float64{0.002, 0.01, 0.05}[g.Intn(3)]
 		c.MaxStall = []time.Duration{200 * time.Microsecond, 5 * time.Millisecond, 50 * time.Millisecond}[g.Intn(3)]
+		c.MaxStalls = g.Range(2, 12)
 	}
 	return c
 }
